@@ -23,7 +23,7 @@ def run(ctx):
     vals = lang.BOUNDARY
     pairs = [(a, b) for a in vals for b in vals]
     for op in lang.BINOPS:
-        ch = [(a, b) for a, b in (pairs if not quick else rng.sample(pairs, 120)) if not (op in ("/", "%") and b == 0)]
+        ch = [(a, b) for a, b in (pairs if not quick else rng.sample(pairs, 120)) + lang.NEAR_PAIRS if not (op in ("/", "%") and b == 0)]
         for k in range(0, len(ch), 170):
             fams.append(("arith %s #%d" % (op, k), lang.arith_program(op, ch[k:k + 170])))
     fams.append(("unary", lang.unary_program(vals)))
